@@ -188,9 +188,10 @@ def takeOldLeaves (filter : Bool) : List Proposal → Tree → Except Err (List 
       else takeOldLeaves filter ps t          -- skipped, and (since the fix) dropped from the bundle
 
 /-- second loop: insert the new leaves; a conflicting one is dropped (old leaf restored) when filtering.
-If even restoring the old leaf conflicts, the source "reverts": the old leaves of the updates applied so far
-are put back — and nothing else: the leaf of the failing update and of every update after it stays blank
-(modelled as the code is; see `Props/C10` `revert_all_loses_leaves`).  `none` marks that branch. -/
+If even restoring the old leaf conflicts, the source "reverts all": the old leaves of the updates applied so far
+are put back, and so are the old leaf of the failing update and of every update not reached yet (they were
+taken out by the first loop).  `none` marks that branch.  (Before the repair F16 the last two groups of leaves
+stayed blank.) -/
 def insertNewLeaves (filter : Bool) : List (Proposal × Leaf) → Tree → List (Proposal × Leaf) → Except Err (Option (List Proposal) × Tree)
   | [], t, done => .ok (some (done.reverse.map (·.1)), t)
   | (p, old) :: rest, t, done =>
@@ -198,7 +199,8 @@ def insertNewLeaves (filter : Bool) : List (Proposal × Leaf) → Tree → List 
     if !conflicts t p.leaf then insertNewLeaves filter rest (insertLeaf t leafIdx p.leaf) ((p, old) :: done)
     else if !filter then .error (.tree .duplicateLeafData)
     else if !conflicts t old then insertNewLeaves filter rest (insertLeaf t leafIdx old) done
-    else .ok (none, done.reverse.foldl (fun t po => insertLeaf t (match po.1.sender with | .member l => l | _ => 0) po.2) t)
+    else .ok (none, (done.reverse ++ (p, old) :: rest).foldl
+      (fun t po => insertLeaf t (match po.1.sender with | .member l => l | _ => 0) po.2) t)
 
 def leafIdxOf (p : Proposal) : Nat := match p.sender with | .member l => l | _ => 0
 
